@@ -128,8 +128,8 @@ example : AssOK [[Atom.chr 97]] ∧ Counted 2 3 ∧ AssOK [[Atom.chr 97], [Atom.
 
 /-! ## the language of a whole `-r` pattern -/
 
-/-- **C05 for the model, whole pattern, all inputs** (`-r` with positive thresholds, no class option, case-sensitive, plain printing with both
-anchors, with or without capturing groups and `-e`; test cases of at most 1000 graphemes, one of them non-empty): the returned text is
+/-- **C05 for the model, whole pattern, all inputs** (`-r` with positive thresholds, no class option, case-sensitive, plain printing with at least
+one anchor in place, with or without capturing groups and `-e`; test cases of at most 1000 graphemes, one of them non-empty): the returned text is
 accepted by the model of `Regex::new`, and the compiled pattern matches a string of scalar values in full **iff the minimised automaton has
 an accepting path whose labels spell it**, a label `{m,n}` contributing its characters `k` times for some `m ≤ k ≤ n`.  Everything after the
 automaton — state elimination, printing with `x{m,n}` / `(?:unit){m,n}` / nested repetitions, reading by the regex crate, matching — is
